@@ -6,7 +6,7 @@ use std::time::Duration;
 
 use super::super::{add_socket, co_io_result, IoData};
 #[cfg(feature = "io_cancel")]
-use crate::coroutine_impl::co_cancel_data;
+use crate::coroutine_impl::co_get_handle;
 use crate::coroutine_impl::{is_coroutine, CoroutineImpl, EventSource};
 use crate::io::{CoIo, OptionCell};
 use crate::os::unix::net::UnixStream;
@@ -90,9 +90,11 @@ impl UnixStreamConnect {
 
 impl EventSource for UnixStreamConnect {
     fn subscribe(&mut self, co: CoroutineImpl) {
+        // once the coroutine is stored below another thread may resume it; it can then run to
+        // its end and drop the socket, so keep what is used after the store alive on our own
         #[cfg(feature = "io_cancel")]
-        let cancel = co_cancel_data(&co);
-        let io_data = &self.io_data;
+        let handle = co_get_handle(&co);
+        let io_data = (*self.io_data).clone();
 
         #[cfg(feature = "io_timeout")]
         crate::scheduler::get_scheduler()
@@ -108,8 +110,9 @@ impl EventSource for UnixStreamConnect {
 
         #[cfg(feature = "io_cancel")]
         {
+            let cancel = handle.get_cancel();
             // register the cancel io data
-            cancel.set_io((*io_data).clone());
+            cancel.set_io(io_data);
             // re-check the cancel status
             if cancel.is_canceled() {
                 unsafe { cancel.cancel() };
